@@ -591,13 +591,15 @@ def shrink_candidates(case):
         yield c
 
 
-def well_formed(case) -> tuple[bool, str]:
-    """The well-formedness the statements of C02/C06 require (strata 1-3)."""
+def well_formed(case, ctx_any: bool = False) -> tuple[bool, str]:
+    """The well-formedness the statements of C02/C06 require (strata 1-3). ctx_any: a context op may stand in front of
+    ANY op (another context op, a branch, a switch ...) - the machine model has no single meaning for that, so only
+    checks that do not need it (C06: totality and exact fallback) ask for it."""
     # a Destroy behind a context op is an ordinary op only when it is entered THROUGH the context op: a jump straight
     # to it would run it on the routine's own entity (and end the routine) - no single meaning, not generated
     for r in case["routines"]:
         for op in r["ops"]:
-            if op[2] is not None:
+            if op[2] is not None and not ctx_any:
                 tr, ti = op[2]
                 tops = case["routines"][tr]["ops"]
                 if 0 < ti < len(tops) and tops[ti][0] in T.STOP_OPS and tops[ti - 1][0] in T.OPS_CTX:
@@ -609,12 +611,12 @@ def well_formed(case) -> tuple[bool, str]:
         last = ops[-1]
         if not (last[0] in T.STOP_OPS or last[0] == "Jump"):
             return False, f"routine {r_i} does not end in a flow-ending op"
-        if len(ops) > 1 and ops[-2][0] in T.OPS_CTX:
+        if len(ops) > 1 and ops[-2][0] in T.OPS_CTX and not ctx_any:
             return False, f"routine {r_i}: last op is in a context"
         for i, op in enumerate(ops):
             name = op[0]
             prev = ops[i - 1][0] if i else None
-            if name in T.OPS_CTX:
+            if name in T.OPS_CTX and not ctx_any:
                 if i + 1 >= len(ops):
                     return False, "context op at end"
                 nxt = ops[i + 1][0]
@@ -693,6 +695,27 @@ def foreign_targets_not_locally_reachable(case) -> bool:
                 if op[2][1] not in reach:
                     return True
     return False
+
+
+def insert_ctx_ops(case, inserts):
+    """inserts: [(routine draw, position draw, ctx op name, target value)]: a context op is put in front of the op at
+    that position (any op); jumps to later ops move on, a jump to that op now enters through the context op."""
+    import copy
+
+    case = copy.deepcopy(case)
+    for rd, pd, name, val in inserts:
+        rs = [i for i, r in enumerate(case["routines"]) if r["ops"]]
+        if not rs:
+            break
+        r_i = rs[rd % len(rs)]
+        ops = case["routines"][r_i]["ops"]
+        pos = pd % len(ops)
+        for r in case["routines"]:
+            for op in r["ops"]:
+                if op[2] is not None and op[2][0] == r_i and op[2][1] > pos:
+                    op[2] = [r_i, op[2][1] + 1]
+        ops.insert(pos, [name, [val], None])
+    return case
 
 
 def inexpressible_case_ops(case) -> bool:
